@@ -77,6 +77,26 @@ func (w *RecWriter) Write(p []byte) (int, error) {
 	return len(p), nil
 }
 
+// SlowWriter is a stream whose Write takes its bytes in two instalments with
+// a pause in between (a blocking write to a slow peer): whoever else runs in
+// the pause must not be able to change what the second instalment carries.
+type SlowWriter struct {
+	Data  []byte
+	Calls []int
+	Pause func()
+}
+
+func (w *SlowWriter) Write(p []byte) (int, error) {
+	k := len(p) / 2
+	w.Data = append(w.Data, p[:k]...)
+	if w.Pause != nil {
+		w.Pause()
+	}
+	w.Data = append(w.Data, p[k:]...)
+	w.Calls = append(w.Calls, len(p))
+	return len(p), nil
+}
+
 // --- generators of signatures and well-formed data ---------------------------
 
 type SigGen struct{ R *rand.Rand }
